@@ -302,6 +302,68 @@ def _aggregates(ctx):
     for sub in folds:
         ctx.ob('C02.1', recalc, sub, isinstance(sub.op, ast.BitOr),
                'child traits combined with bitwise OR')
+    # every child is recorded: the routine that enters a child's traits
+    # stores the entry and folds again on every path (an entry skipped
+    # because "the aggregate has it already" is missed when the sibling that
+    # contributed it leaves), the one that withdraws a child skips the
+    # deletion only for a child that has no entry
+    writers = 0
+    for meth in traitset.live_methods():
+        if meth.name == '__init__' or meth is recalc:
+            continue
+        mgraph = ctx.cfg(meth)
+        stores = [n for n in mgraph.nodes if n.kind == 'stmt' and
+                  isinstance(n.ast, ast.Assign) and any(
+                      isinstance(t, ast.Subscript) and
+                      N.txt(t.value) == 'self.children_traits'
+                      for t in n.ast.targets)]
+        dels = [n for n in mgraph.nodes if n.kind == 'stmt' and (
+            (isinstance(n.ast, ast.Delete) and any(
+                isinstance(t, ast.Subscript) and
+                N.txt(t.value) == 'self.children_traits'
+                for t in n.ast.targets)) or any(
+                    K.is_meth(c, 'pop') and
+                    K.recv_text(c) == 'self.children_traits'
+                    for c in C.node_calls(n)))]
+        if not stores and not dels:
+            continue
+        writers += 1
+        folds_again = [n for n, _c in K.nodes_calling(
+            mgraph, lambda c: K.is_meth(c, recalc.name) and
+            K.recv_text(c) == 'self')]
+        if stores:
+            path = K.find_path(mgraph.entry, [mgraph.exit],
+                               cut_node=lambda n: n in stores,
+                               follow_exc=False)
+            ctx.ob('C02.1', meth, stores[0], path is None,
+                   "the child's traits are recorded on every path (never "
+                   'skipped because the aggregate has them already)',
+                   path=K.describe(path) if path else None,
+                   construct='child entry stored in %s' % meth.name)
+        if dels:
+            nzt = N.Normaliser()
+
+            def absent(edge):
+                return any(a.key[0] == 'in' and not a.key[3] and
+                           a.key[2] == 'self.children_traits'
+                           for a in nzt.facts_of_edge(edge))
+            path = K.find_path(mgraph.entry, [mgraph.exit],
+                               cut_node=lambda n: n in dels,
+                               cut_edge=absent, follow_exc=False)
+            ctx.ob('C02.1', meth, dels[0], path is None,
+                   "the child's entry is deleted unless it has none",
+                   path=K.describe(path) if path else None,
+                   construct='child entry deleted in %s' % meth.name)
+        path = K.find_path(mgraph.entry, [mgraph.exit],
+                           cut_node=lambda n: n in folds_again,
+                           follow_exc=False)
+        ctx.ob('C02.1', meth, folds_again[0] if folds_again else None,
+               bool(folds_again) and path is None,
+               'the aggregate is folded again on every path of %s' %
+               meth.name, path=K.describe(path) if path else None,
+               construct='fold after the entry changed in %s' % meth.name)
+    ctx.require(writers >= 2, 'TraitSet routines entering / withdrawing a '
+                'child (found %d)' % writers, rule='C02.1')
     has = traitset.methods.get('has')
     ctx.require(has is not None, 'TraitSet.has')
     param = has.params()[1]
@@ -1062,6 +1124,11 @@ def check(ctx):
     from . import c04
     with ctx.shared({'C04': 'C02.7'}):
         c04._counters(ctx)
+        # the affinity an instance is counted under at placement is the one
+        # withdrawn at removal: it is set by the constructor only (a name
+        # changed in between leaves the old one counted for ever, and an
+        # instance that fits is refused on a limit nobody reaches)
+        c04._affinity_fixed(ctx)
     # shared with C05.2: an instance that is deleted hands its identity back
     # whether it is placed or not (else the pool shrinks for good and a
     # fitting member of the group stays pending)
